@@ -41,7 +41,7 @@ type c19Case struct {
 }
 
 var c19Dirs = []string{"", "src", "src/lib", "third_party/x/y", "docs", "a.b"}
-var c19Kinds = []string{"licensed", "licensed", "header", "two-headers", "same-as-first", "same-as-first", "two-licenses", "prose", "empty", "crlf", "no-trailing-newline", "long-line-before", "long-line-inside", "binary", "notice-and-license", "edited"}
+var c19Kinds = []string{"licensed", "licensed", "header", "two-headers", "same-as-first", "same-as-first", "two-licenses", "prose", "empty", "crlf", "no-trailing-newline", "long-line-before", "long-line-inside", "binary", "notice-and-license", "edited", "symlink-licensed"}
 var c19Names = []string{"LICENSE", "COPYING.txt", "main.go", "x.c", "NOTICE", "file.rs", "README.md", "a", "b.txt", "zz.h", "lic.TXT", "m.py"}
 
 func c19Gen(t *rapid.T) interface{} {
@@ -75,7 +75,7 @@ func c19Content(f c19File) []byte {
 	pre := oovWords(f.Param, 6, 4)
 	post := oovWords(f.Param+50, 5, 0)
 	switch f.Kind {
-	case "licensed", "same-as-first":
+	case "licensed", "same-as-first", "symlink-licensed":
 		return []byte(pre + string(d1.Content) + "\n" + post)
 	case "header":
 		return []byte("// " + strings.Replace(strings.TrimSpace(string(h1.Content)), "\n", "\n// ", -1) + "\n\npackage main\n\nfunc main() {}\n")
@@ -210,7 +210,20 @@ func c19Materialise(c *c19Case, root string) ([]string, map[string][]byte, error
 			}
 			b = c19Content(first)
 		}
-		if err := os.WriteFile(p, b, 0o644); err != nil {
+		if f.Kind == "symlink-licensed" {
+			// the file is a symbolic link to a regular file that lives outside the scanned tree
+			tdir := root + "_targets"
+			if err := os.MkdirAll(tdir, 0o755); err != nil {
+				return nil, nil, err
+			}
+			target := filepath.Join(tdir, f.Name)
+			if err := os.WriteFile(target, b, 0o644); err != nil {
+				return nil, nil, err
+			}
+			if err := os.Symlink(target, p); err != nil {
+				return nil, nil, err
+			}
+		} else if err := os.WriteFile(p, b, 0o644); err != nil {
 			return nil, nil, err
 		}
 		contents[p] = b
@@ -271,6 +284,7 @@ func c19CLICheck(ci interface{}) lib.Outcome {
 	}
 	root := c19Root()
 	defer os.RemoveAll(root)
+	defer os.RemoveAll(root + "_targets")
 	os.MkdirAll(root, 0o755)
 	tree := filepath.Join(root, "tree")
 	paths, contents, err := c19Materialise(c, tree)
@@ -438,6 +452,7 @@ func c19BackendCheck(ci interface{}) lib.Outcome {
 	}
 	root := c19Root()
 	defer os.RemoveAll(root)
+	defer os.RemoveAll(root + "_targets")
 	paths, contents, err := c19Materialise(c, root)
 	if err != nil {
 		return lib.Outcome{Skip: "malformed"}
